@@ -11,6 +11,9 @@ RULES = {
     "R17.2": "the value saved is the stored list with only `admins` replaced, or only `mutable` set to false - `mutable` is "
              "never written from anything but the literal false",
     "R17.3": "cw1-subkeys reaches the same two handlers and adds no other writer of ADMIN_LIST (all entry points of both contracts)",
+    "R17.5": "the two handlers take effect: every successful Freeze stores the list with mutable := false and every successful "
+             "UpdateAdmins stores the list with `admins` replaced (in both contracts) - an Ok answer that stored nothing would "
+             "leave a list its admins believe frozen still mutable",
     "R17.4": "every write to the subkey ALLOWANCES / PERMISSIONS maps is guarded by is_admin(stored, info.sender) = true, except "
              "the subkey's own spend (update of ALLOWANCES[info.sender] that subtracts the sent coins)",
 }
@@ -23,7 +26,7 @@ def run(ctx):
     if not ctx.ob("R17.1", "anchor:storage namespaces", None not in (ADMIN, ALW, PERM), trivial=True,
                   detail="admin_list / allowances / permissions namespaces not found"):
         return
-    n_admin_writes, n_grant = set(), set()
+    n_admin_writes, n_grant, n_effect = set(), set(), set()
     for crate in ("cw1_whitelist", "cw1_subkeys"):
         eps = entry_points(ctx.facts, crate)
         for ename, fn in sorted(eps.items()):
@@ -60,9 +63,28 @@ def run(ctx):
                                    good, sites=[e.site],
                                    detail="subkey grant written at key %s without is_admin(stored ADMIN_LIST, info.sender) = true before the write"
                                           % show(e.key)[:120], sample={"write": repr(e)[:200], "authority": why})
+                    if ename == "execute" and variant in ("Freeze", "UpdateAdmins"):
+                        aw = [e for e in p.effects if e.kind == "write" and e.item == ADMIN and e.op != "remove"]
+                        want = "mutable" if variant == "Freeze" else "admins"
+                        took = False
+                        for e in aw:
+                            _, fields = update_base(e.value)
+                            if want in fields and (want != "mutable" or fields["mutable"] == ("lit", False)):
+                                took = True
+                        if not took and variant == "UpdateAdmins":
+                            # nothing to store when the path decided the new list equals the stored one
+                            took = any(c[0][0] == "cmp" and c[0][1] == "eq" and c[1] is True and
+                                       any(x[0] == "field" and x[2] == "admins" and loaded_from(x[1]) is not None and loaded_from(x[1])[0] == ADMIN
+                                           for x in (c[0][2], c[0][3])) for c in p.conds)
+                        n_effect.add((crate, variant))
+                        ctx.ob("R17.5", key + "/takes effect", took, sites=[e.site for e in aw],
+                               detail="%s returns Ok on a path that does not store the list with %s" %
+                                      (variant, "mutable := false" if variant == "Freeze" else "the new `admins`"),
+                               sample={"writes": len(aw)})
                 ctx.ob("R17.3", key, True, trivial=True)
     ctx.floor("R17.1", "ADMIN_LIST-writing (contract, variant) pairs outside instantiate", len(n_admin_writes), 4)
     ctx.floor("R17.4", "ALLOWANCES/PERMISSIONS writes (variant, map, op)", len(n_grant), 5)
+    ctx.floor("R17.5", "Freeze / UpdateAdmins Ok-paths per contract", len(n_effect), 4)
 
 
 def check_admin_write(ctx, p, i, e, key, ADMIN):
